@@ -30,6 +30,7 @@ def run(chk):
     chk.rule = ("every (byte order, width 1..64, position -16..511, set notation) with all get notations; "
                 "non-trivial = Motorola or numbering differs from byte order or position rejected; distinct by (le,size,pos,notation)")
     ok = chk.build_and_audit()
+    tr_ok = ok and core.translator_tie(chk, ['gen/Tie_startbit.v'], ['gen/Gen_startbit.v'])
     cm = core.import_impl()
     Signal = cm.canmatrix.Signal if hasattr(cm, "canmatrix") else cm.Signal
     Err = cm.canmatrix.StartbitLowerZero
